@@ -1024,4 +1024,167 @@ Proof.
   - unfold add_res. cbn [drive1 fst snd app]. reflexivity.
 Qed.
 
+(* ---- the loop State::drive ---- *)
+Lemma drive_S f s d out :
+  drive norm maxc (S f) s d out =
+    match drive1 norm maxc s d with
+    | (PANIC n, _) => DPanic n
+    | (Break r s', o) => DOk r s' (out ++ o)
+    | (Continue r s', o) =>
+      match r with [] => DOk r s' (out ++ o) | _ => drive norm maxc f s' r (out ++ o) end
+    end.
+Proof.
+  cbn [drive]. destruct (is_final s) eqn:F; [|reflexivity].
+  destruct s; try discriminate; cbn [drive1]; rewrite app_nil_r; reflexivity.
+Qed.
+
+Lemma final_good s : is_final s = true -> no00 s.
+Proof. destruct s; try discriminate; intros _; exact I. Qed.
+
+Lemma drive_enough : forall f s d out, state_ok s -> bytes_ok d -> len d < SIZE_LIMIT ->
+  (N.to_nat (2 * len d + kappa s) < f)%nat ->
+  exists r s' o, drive norm maxc f s d out = DOk r s' (out ++ o) /\ sgood s' /\ bytes_ok o /\
+                 suffix r d /\ (is_final s = true -> s' = s /\ r = d /\ o = []).
+Proof.
+  induction f as [|f IH]; intros s d out Hs Hok Hsz Hf; [lia|].
+  destruct (is_final s) eqn:F.
+  - cbn [drive]. rewrite F. exists d, s, []. rewrite app_nil_r.
+    split; [reflexivity|]. split; [split; [exact Hs|apply final_good; exact F]|].
+    split; [constructor|]. split; [apply suffix_refl|]. intros _. repeat split.
+  - rewrite drive_S. pose proof (drive1_post s d Hs Hok Hsz) as P.
+    destruct (drive1 norm maxc s d) as [[r s'|r s'|n] o]; cbn [step_post] in P.
+    + destruct P as [P1 [P2 P3]]. exists r, s', o. split; [reflexivity|].
+      split; [exact P1|]. split; [exact P2|]. split; [exact P3|]. intros X; discriminate.
+    + destruct P as [P1 [P2 [P3 P4]]].
+      destruct r as [|b r'].
+      * exists [], s', o. split; [reflexivity|]. split; [exact P1|]. split; [exact P2|].
+        split; [exact P3|]. intros X; discriminate.
+      * pose proof (suffix_len _ _ P3) as Hl.
+        destruct (IH s' (b :: r') (out ++ o) (proj1 P1) (suffix_ok _ _ P3 Hok) ltac:(lia) ltac:(lia))
+          as [r2 [s2 [o2 [E [G1 [G2 [G3 _]]]]]]].
+        exists r2, s2, (o ++ o2). rewrite app_assoc. split; [exact E|]. split; [exact G1|].
+        split; [apply bytes_ok_app; split; assumption|].
+        split; [eapply suffix_trans; eassumption|]. intros X; discriminate.
+    + contradiction.
+Qed.
+
+Lemma drive_mono : forall f1 f2 s d out r s' o, (f1 <= f2)%nat ->
+  drive norm maxc f1 s d out = DOk r s' o -> drive norm maxc f2 s d out = DOk r s' o.
+Proof.
+  induction f1 as [|f1 IH]; intros f2 s d out r s' o Hle H; [discriminate|].
+  destruct f2 as [|f2]; [lia|]. rewrite drive_S in *.
+  destruct (drive1 norm maxc s d) as [[r0 s0|r0 s0|n] o0]; try exact H.
+  destruct r0 as [|b r0']; [exact H|]. apply IH; [lia|exact H].
+Qed.
+
+Lemma drive_det f1 f2 s d out r1 s1 o1 r2 s2 o2 :
+  drive norm maxc f1 s d out = DOk r1 s1 o1 -> drive norm maxc f2 s d out = DOk r2 s2 o2 ->
+  r1 = r2 /\ s1 = s2 /\ o1 = o2.
+Proof.
+  intros H1 H2.
+  apply (drive_mono f1 (Nat.max f1 f2)) in H1; [|lia].
+  apply (drive_mono f2 (Nat.max f1 f2)) in H2; [|lia].
+  rewrite H1 in H2. inversion H2. repeat split.
+Qed.
+
+Lemma drive_out : forall f s d out,
+  drive norm maxc f s d out =
+    match drive norm maxc f s d [] with DOk r s' o => DOk r s' (out ++ o) | x => x end.
+Proof.
+  induction f as [|f IH]; intros s d out; [reflexivity|]. rewrite !drive_S.
+  destruct (drive1 norm maxc s d) as [[r s'|r s'|n] o]; cbn [app]; try reflexivity.
+  destruct r as [|b r']; [reflexivity|].
+  rewrite (IH s' (b :: r') (out ++ o)), (IH s' (b :: r') o).
+  destruct (drive norm maxc f s' (b :: r') []); try reflexivity. rewrite app_assoc. reflexivity.
+Qed.
+
+Lemma drive_fuel_enough s d : (N.to_nat (2 * len d + kappa s) < drive_fuel d)%nat.
+Proof. unfold drive_fuel, len. pose proof (kappa_le1 s). lia. Qed.
+
+(* totality, in the form used below *)
+Lemma drive_all_ok s d : state_ok s -> bytes_ok d -> len d < SIZE_LIMIT ->
+  exists r s' o, drive_all norm maxc s d = DOk r s' o /\ sgood s' /\ bytes_ok o /\ suffix r d /\
+                 (is_final s = true -> s' = s /\ r = d /\ o = []).
+Proof.
+  intros Hs Hok Hsz. unfold drive_all.
+  destruct (drive_enough (drive_fuel d) s d [] Hs Hok Hsz (drive_fuel_enough s d)) as [r [s' [o H]]].
+  exists r, s', o. exact H.
+Qed.
+
+Lemma drive_all_eq s d f r s' o : state_ok s -> bytes_ok d -> len d < SIZE_LIMIT ->
+  drive norm maxc f s d [] = DOk r s' o -> drive_all norm maxc s d = DOk r s' o.
+Proof.
+  intros Hs Hok Hsz H. destruct (drive_all_ok s d Hs Hok Hsz) as [r0 [s0 [o0 [E _]]]].
+  rewrite E. unfold drive_all in E. destruct (drive_det _ _ _ _ _ _ _ _ _ _ _ E H) as [-> [-> ->]].
+  reflexivity.
+Qed.
+
+Lemma drive_total : drive_total_stmt norm maxc.
+Proof.
+  intros s d Hs _ Hok Hsz.
+  destruct (drive_all_ok s d Hs Hok Hsz) as [r [s' [o [E [[G1 _] [G2 [G3 G4]]]]]]].
+  exists r, s', o. repeat split; try assumption; apply G4; assumption.
+Qed.
+
+(* additivity through the loop *)
+Lemma drive_add_gen d2 : d2 <> [] -> forall f s d out r1 s1 o1,
+  state_ok s -> bytes_ok (d ++ d2) -> len (d ++ d2) < SIZE_LIMIT ->
+  drive norm maxc f s d out = DOk r1 s1 o1 ->
+  forall f2 r2 s2 o2, drive norm maxc f2 s1 (r1 ++ d2) o1 = DOk r2 s2 o2 ->
+  exists F, drive norm maxc F s (d ++ d2) out = DOk r2 s2 o2.
+Proof.
+  intros Hne. induction f as [|f IH]; intros s d out r1 s1 o1 Hs Hok Hsz H f2 r2 s2 o2 H2; [discriminate|].
+  rewrite drive_S in H. pose proof (drive1_add s d d2 Hs Hok Hsz) as A. unfold add_res in A.
+  pose proof Hok as Hok'. apply bytes_ok_app in Hok' as [Hok1 Hok2].
+  assert (Hsz1 : len d < SIZE_LIMIT) by (rewrite len_app in Hsz; lia).
+  pose proof (drive1_post s d Hs Hok1 Hsz1) as P.
+  destruct (drive1 norm maxc s d) as [[r s'|r s'|n] o]; cbn [step_post] in P.
+  - inversion H; subst r1 s1 o1. destruct f2 as [|f2]; [discriminate|].
+    exists (S f2). rewrite drive_S in *. rewrite A.
+    destruct (drive1 norm maxc s' (r ++ d2)) as [[r3 s3|r3 s3|n3] o3]; cbn [fst snd];
+      rewrite ?app_assoc; exact H2.
+  - destruct P as [P1 [P2 [P3 P4]]]. destruct r as [|b r'].
+    + inversion H; subst r1 s1 o1. exists (S f2). rewrite drive_S, A. cbn [app] in *.
+      destruct d2 as [|b2 d2']; [contradiction|]. exact H2.
+    + assert (Hok3 : bytes_ok ((b :: r') ++ d2)).
+      { apply bytes_ok_app. split; [eapply suffix_ok; eassumption|exact Hok2]. }
+      assert (Hsz3 : len ((b :: r') ++ d2) < SIZE_LIMIT).
+      { apply suffix_len in P3. rewrite len_app in *. lia. }
+      destruct (IH s' (b :: r') (out ++ o) r1 s1 o1 (proj1 P1) Hok3 Hsz3 H f2 r2 s2 o2 H2) as [F HF].
+      exists (S F). rewrite drive_S, A. cbn [app] in *. exact HF.
+  - discriminate.
+Qed.
+
+(* (A) for a non-empty second part; for d2 = [] see drive_settle / A_counterexample below *)
+Definition A'_stmt : Prop := forall s d1 d2, d2 <> [] ->
+  state_ok s -> bytes_ok d1 -> bytes_ok d2 -> len (d1 ++ d2) < SIZE_LIMIT ->
+  drive_all norm maxc s (d1 ++ d2) =
+    match drive_all norm maxc s d1 with
+    | DOk r1 s1 o1 =>
+      match drive_all norm maxc s1 (r1 ++ d2) with
+      | DOk r2 s2 o2 => DOk r2 s2 (o1 ++ o2)
+      | x => x
+      end
+    | x => x
+    end.
+
+Lemma drive_additive' : A'_stmt.
+Proof.
+  intros s d1 d2 Hne Hs Hok1 Hok2 Hsz.
+  assert (Hok : bytes_ok (d1 ++ d2)) by (apply bytes_ok_app; split; assumption).
+  assert (Hsz1 : len d1 < SIZE_LIMIT) by (rewrite len_app in Hsz; lia).
+  destruct (drive_all_ok s d1 Hs Hok1 Hsz1) as [r1 [s1 [o1 [E1 [[G1 _] [G2 [G3 _]]]]]]].
+  assert (Hok3 : bytes_ok (r1 ++ d2)).
+  { apply bytes_ok_app. split; [eapply suffix_ok; eassumption|exact Hok2]. }
+  assert (Hsz3 : len (r1 ++ d2) < SIZE_LIMIT).
+  { apply suffix_len in G3. rewrite len_app in *. lia. }
+  destruct (drive_all_ok s1 (r1 ++ d2) G1 Hok3 Hsz3) as [r2 [s2 [o2 [E2 _]]]].
+  rewrite E1, E2.
+  assert (E2' : drive norm maxc (drive_fuel (r1 ++ d2)) s1 (r1 ++ d2) o1 = DOk r2 s2 (o1 ++ o2)).
+  { rewrite drive_out. unfold drive_all in E2. rewrite E2. reflexivity. }
+  unfold drive_all in E1.
+  destruct (drive_add_gen d2 Hne _ _ _ _ _ _ _ Hs Hok Hsz E1 _ _ _ _ E2') as [F HF].
+  exact (drive_all_eq _ _ _ _ _ _ Hs Hok Hsz HF).
+Qed.
+
 End Drive.
